@@ -111,10 +111,49 @@ def sigMonitors (sc : VScan) (obs : List ObsCk) (marks : List (String × List (O
       if sg.length != p.set.length then sc := vfail sc s!"signature slots of checkpoint {k.idx} do not match the previous set"
       if sg.any (· == some false) then sc := vfail sc s!"a stored signature of checkpoint {k.idx} does not verify for its slot's member"
       let signed := ((p.set.zip sg).filter (fun x => x.2 == some true)).map (·.1.power) |>.sum
-      if 3 * signed > 2 * totalPower p.set then
+      -- the property quantifies over sets with total power of at least 2 (a total of 1 gives threshold 0, which the contract refuses)
+      if 3 * signed > 2 * totalPower p.set && totalPower k.set ≥ 2 then
         let r := updateValidatorSet concreteH (cstateOf concreteH p) (concreteH.set k.set) k.threshold k.ts p.set sg
         if r != some (cstateOf concreteH k) then sc := vfail sc s!"contract rejects step to checkpoint {k.idx} although > 2/3 signed"
         else if final then sc := { sc with accepted := sc.accepted + 1 }
+  return sc
+
+/-! the statement of C16 written independently of the model's end blocker (exact rationals, no PowerDiff formula) -/
+def specMembers (vals : List SVal) : List BVal :=
+  vals.filterMap (fun v => match v.evm with
+    | some a => if v.bonded && v.tokens ≥ 1000000 then some ⟨a, v.tokens / 1000000⟩ else none
+    | none => none)
+
+def specPower (s : Valset.Set) (a : String) : Int := match s.find? (·.addr == a) with | some v => v.power | none => 0
+
+/-- Σ|Δpower| · 20 ≥ total power of the saved set  (a shift of at least 5 %) -/
+def specShift (last cur : Valset.Set) : Bool :=
+  let addrs := ((last ++ cur).map (·.addr)).eraseDups
+  let d := (addrs.map (fun a => (specPower last a - specPower cur a).natAbs)).sum
+  decide (d * 20 ≥ totalPower last) && totalPower last > 0
+
+def sameMembers (a b : Valset.Set) : Bool := a.length == b.length && a.all (fun x => b.contains x) && b.all (fun x => a.contains x)
+
+def createMonitor (sc : VScan) (prev : St) (obs : St) (t : Nat) : VScan := Id.run do
+  let mut sc := sc
+  let created := obs.ckpts.length > prev.ckpts.length
+  let members := specMembers sc.vals
+  if created then
+    match obs.ckpts.getLast? with
+    | some k => if !sameMembers k.set members then sc := vfail sc s!"set of checkpoint {k.idx} is not the registered validators with non-zero power"
+    | none => pure ()
+    if obs.ckpts.length != prev.ckpts.length + 1 || obs.ckpts.take prev.ckpts.length != prev.ckpts then
+      sc := vfail sc "earlier checkpoints altered"
+  else if obs != prev then sc := vfail sc "bridge state changed without a new checkpoint"
+  match prev.saved, prev.ckpts.getLast? with
+  | some last, some lk =>
+    let age := t - lk.ts
+    let shift := specShift last members
+    let twoWeeks := 14 * 24 * 3600 * 1000
+    -- staleness is measured by the code with a 1 s look-ahead: ages in (2w - 1 s, 2w] are tolerated either way
+    if (shift || age > twoWeeks) && !created then sc := vfail sc s!"no checkpoint at t={t} although shift={shift} age={age}"
+    if (!shift && age + 1000 ≤ twoWeeks) && created then sc := vfail sc s!"checkpoint at t={t} although shift < 5 % and age={age}"
+  | _, _ => if !created then sc := vfail sc "no checkpoint although none was saved"
   return sc
 
 def scanValset (out : String) : VScan := Id.run do
@@ -143,6 +182,7 @@ def scanValset (out : String) : VScan := Id.run do
         match sc.st with
         | none => sc := { sc with st := some ost }
         | some st =>
+          sc := createMonitor sc st ost t
           match endBlock st sc.vals t with
           | none => sc := vdiff sc s!"model: end blocker fails at t={t}"
           | some st' =>
